@@ -6,6 +6,7 @@
   band contents — not only for bands that are the transform of a signal.
 -/
 import WaveletsVerif.Lemmas.Basic
+import WaveletsVerif.Lemmas.Per
 namespace WV.C10
 open Finset WV
 variable {R : Type} [CommRing R]
@@ -36,6 +37,114 @@ theorem sfb1dCh_eq_idwt (m : Mode) (hm : m = .zero ∨ m = .symmetric ∨ m = .r
       rw [e]
   rcases hm with rfl | rfl | rfl | rfl <;>
     simp only [sfb1dCh, Spec.idwt, hguard, hfit', if_false] <;> rw [key]
+
+/-! ### periodization synthesis (complement of the known finding: `L − 2 ≤ 2n`) -/
+
+theorem getN_convTFull (w g : List R) (t : Nat) (ht : t < 2 * (g.length - 1) + w.length) :
+    getN (convTFull w g) t = ∑ k ∈ range g.length, getN g k * getZ w ((t:Int) - 2*k) := by
+  unfold convTFull
+  rw [getN_tab]; simp only [ht, if_true]
+  rw [sumN_eq]
+
+theorem sumN_two (n : Nat) (f : Nat → R) (hn : 2 ≤ n) (hz : ∀ r, 2 ≤ r → f r = 0) : sumN n f = f 0 + f 1 := by
+  rw [sumN_eq]
+  have : range n = range 2 ∪ (Finset.Ico 2 n) := by
+    ext a; simp; omega
+  rw [this, Finset.sum_union (by
+    rw [Finset.disjoint_left]; intro a ha hb; simp at ha hb; omega)]
+  have z : ∑ r ∈ Finset.Ico 2 n, f r = 0 := Finset.sum_eq_zero (fun r hr => hz r (by simp at hr; omega))
+  rw [z, Finset.sum_range_succ, Finset.sum_range_one]; ring
+
+/-- `sfb1d` in periodization mode (transposed convolutions, ONE fold of the `L−2` tail, roll back by `L/2−1`)
+equals PyWavelets' periodized `idwt` for arbitrary bands whenever `L − 2 ≤ 2n` — exactly the complement of the
+known finding C10-periodization-short. -/
+theorem sfb1dCh_per_eq_idwt_partial (g0 g1 lo hi : List R) (hL : 2 ≤ g0.length) (hg : g1.length = g0.length)
+    (hn : 1 ≤ lo.length) (hh : hi.length = lo.length) (hfit : g0.length - 2 ≤ 2 * lo.length) :
+    sfb1dCh .periodization g0 g1 lo hi = some (Spec.idwt .periodization g0 g1 lo hi) := by
+  have hguard : ¬ (g0.length < 2 ∨ g1.length ≠ g0.length ∨ lo.length < 1 ∨ hi.length ≠ lo.length) := by omega
+  simp only [sfb1dCh, Spec.idwt, hguard, if_false]
+  congr 1
+  set N := 2 * lo.length with hN
+  set L := g0.length with hLdef
+  set y := vadd (convTFull g0 lo) (convTFull g1 hi) with hy
+  have hylen : y.length = N + L - 2 := by simp [hy, vadd, convTFull]; omega
+  -- elements of y
+  have hyget : ∀ t : Nat, t < N + L - 2 →
+      getN y t = ∑ k ∈ range lo.length, (getN lo k * getZ g0 ((t:Int) - 2*k) + getN hi k * getZ g1 ((t:Int) - 2*k)) := by
+    intro t ht
+    rw [hy, getN_vadd _ _ _ (by simp [convTFull]; omega), getN_convTFull _ _ _ (by omega),
+      getN_convTFull _ _ _ (by rw [hh, hg]; omega), hh, ← Finset.sum_add_distrib]
+  have hyz : ∀ t : Nat, N + L - 2 ≤ t → getN y t = 0 := by
+    intro t ht
+    rw [getN_eq_getZ]; exact getZ_of_ge _ _ (by rw [hylen]; omega)
+  -- the spec's `full`
+  have hfull : ∀ t : Nat, (if ((t:Nat):Int) < 0 ∨ ((N + L - 2 : Nat):Int) ≤ (t:Int) then (0:R) else
+        sumN lo.length fun k => getN lo k * getZ g0 ((t:Int) - 2*k) + getN hi k * getZ g1 ((t:Int) - 2*k))
+      = getN y t := by
+    intro t
+    by_cases ht : t < N + L - 2
+    · have : ¬ (((t:Nat):Int) < 0 ∨ ((N + L - 2 : Nat):Int) ≤ (t:Int)) := by omega
+      rw [if_neg this, sumN_eq, hyget t ht]
+    · have : (((t:Nat):Int) < 0 ∨ ((N + L - 2 : Nat):Int) ≤ (t:Int)) := by omega
+      rw [if_pos this, hyz t (by omega)]
+  have ha : L / 2 - 1 ≤ N := by omega
+  have hroll : rollPy ((foldAdd y (L - 2) N).take N) (1 - ((L / 2 : Nat) : Int))
+      = ((foldAdd y (L - 2) N).take N).drop (L/2 - 1) ++ ((foldAdd y (L - 2) N).take N).take (L/2 - 1) := by
+    have e : (1 - ((L / 2 : Nat) : Int)) = -((L/2 - 1 : Nat) : Int) := by push_cast [Nat.cast_sub (by omega : 1 ≤ L/2)]; ring
+    rw [e]
+    exact rollPy_neg _ _ (by simp [foldAdd, hylen]; omega)
+  rw [hroll]
+  have hy1len : ((foldAdd y (L - 2) N).take N).length = N := by simp [foldAdd, hylen]; omega
+  apply List.ext_getElem
+  · simp [hy1len]; omega
+  · intro u hu1 hu2
+    have hu : u < N := by simpa using hu2
+    simp only [tab, List.getElem_map, List.getElem_range]
+    -- left: element of the rolled list, as getZ
+    have hl : ((((foldAdd y (L - 2) N).take N).drop (L/2 - 1) ++ ((foldAdd y (L - 2) N).take N).take (L/2 - 1)))[u]'hu1
+        = getZ ((foldAdd y (L - 2) N).take N) ((((u:Nat):Int) + ((L/2 - 1 : Nat):Int)) % ((((foldAdd y (L - 2) N).take N).length : Nat) : Int)) := by
+      have := getZ_roll ((foldAdd y (L - 2) N).take N) (L/2 - 1) (by rw [hy1len]; omega) (u:Int) (by positivity) (by rw [hy1len]; exact_mod_cast hu)
+      rw [← this]
+      simp [getZ, List.getD_eq_getElem?_getD, List.getElem?_eq_getElem hu1]
+    rw [hl, hy1len]
+    have hNpos : (0:Int) < (N:Int) := by omega
+    have em0 := Int.emod_nonneg ((u:Int) + ((L/2 - 1 : Nat):Int)) (by omega : (N:Int) ≠ 0)
+    have em1 := Int.emod_lt_of_pos ((u:Int) + ((L/2 - 1 : Nat):Int)) hNpos
+    have eidx : ((u:Int) + ((L/2 : Nat):Int) - 1) % (N:Int) = ((u:Int) + ((L/2 - 1 : Nat):Int)) % (N:Int) := by
+      congr 1; push_cast [Nat.cast_sub (by omega : 1 ≤ L/2)]; ring
+    rw [eidx]
+    generalize hv : ((u:Int) + ((L/2 - 1 : Nat):Int)) % (N:Int) = v at *
+    obtain ⟨w, rfl⟩ : ∃ w : Nat, v = (w:Int) := ⟨v.toNat, by omega⟩
+    have hw : w < N := by exact_mod_cast em1
+    -- left side at w
+    have hleft : getZ ((foldAdd y (L - 2) N).take N) ((w:Nat):Int) = getN y w + (if w < L - 2 then getN y (N + w) else 0) := by
+      rw [← getN_eq_getZ, getN_take _ _ _ hw]
+      unfold foldAdd
+      rw [getN_tab]
+      have : w < y.length := by rw [hylen]; omega
+      simp only [this, if_true]
+      split <;> simp
+    rw [hleft]
+    -- right side: fold with two non-zero terms
+    rw [sumN_two _ _ (by
+        have : 1 ≤ (N + L - 2) / N := by
+          apply Nat.div_pos <;> omega
+        omega) (by
+        intro r hr
+        have hbig : ((N + L - 2 : Nat):Int) ≤ (w:Int) + (r:Int) * (N:Int) := by
+          have : (2:Int) * N ≤ (r:Int) * N := by
+            have : (2:Int) ≤ r := by exact_mod_cast hr
+            nlinarith
+          push_cast; omega
+        rw [if_pos (Or.inr hbig)])]
+    have e0 : (w:Int) + ((0:Nat):Int) * (N:Int) = ((w:Nat):Int) := by simp
+    have e1 : (w:Int) + ((1:Nat):Int) * (N:Int) = ((N + w : Nat):Int) := by push_cast; ring
+    rw [e0, e1, hfull w, hfull (N + w)]
+    congr 1
+    split
+    · rfl
+    · rename_i hge
+      exact (hyz (N + w) (by omega)).symm
 
 /-- one step of the level loop on the specification side (what `pywt.waverec` does per level) -/
 def stepS (m : Mode) (g0 g1 a : List R) (d : Option (List R)) : List R :=
